@@ -47,6 +47,7 @@ fn all() {
     family_group!(c01_legal, crate::h_board::c01_legal);
     family_group!(c01_nq, crate::h_board::c01_nq);
     family_group!(c01_gen_after, crate::h_board::c01_gen_after);
+    family_group!(c01_inv, crate::h_board::c01_inv);
     family_group!(c02_make, crate::h_board::c02_make);
     family_group!(c03_undo, crate::h_board::c03_undo);
     family_group!(c03_undo_hash, crate::h_board::c03_undo_hash);
